@@ -371,8 +371,12 @@ def main():
         def still(lines):
             cc = {"id": "shrink", "lines": lines, "meta": c.get("meta", {})}
             o = run_side([exe], [("shrink", lines)], ASAN_ENV, "s").get("shrink", [])
-            return any(x["signature"] == v["signature"] for x in fam.oracle(cc, o))
-        small = ddmin(c["lines"], still, getattr(fam, "KEEP_FIRST", 1)) if len(c["lines"]) > 2 else c["lines"]
+            try:
+                return any(x["signature"] == v["signature"] for x in fam.oracle(cc, o))
+            except Exception:
+                return False      # the candidate no longer fits the case's meta: not a reproduction
+        small = ddmin(c["lines"], still, getattr(fam, "KEEP_FIRST", 1)) \
+            if len(c["lines"]) > 2 and getattr(fam, "SHRINK", True) else c["lines"]
         rp = os.path.join(rp_dir, f"{pid}-violation.case")
         with open(rp, "w") as f:
             f.write(f"# property {pid}: {v['what']}\n# signature: {v['signature']}\n# replay: ./check.py {pid} --replay {rp}\n")
